@@ -39,6 +39,9 @@ TRUSTED = [
     'modelled, not verified: numpy boolean indexing / np.where / np.asarray (list semantics on rectangular data; ragged data '
     'under a numpy mask = ValueError), zip(strict), dict insertion order, hashing of slice values (ints in the sample)',
     'numpy broadcasting of length-1 masks/columns against longer operands is outside the model (never generated)',
+    'numpy dtype handling is modelled, not verified: dtype inference of np.asarray, promotion of np.where(mask, column, value) (numeric promotion '
+    'is value-preserving and not represented; promotion to a string dtype converts non-strings; str column with int/float value raises), observed on numpy 2.x; '
+    'the oracle replaces at the Python level (plain lists, no numpy); typed columns are observed through bag aggregates that count every scalar up to Python ==',
 ]
 ASSUMPTIONS = ['user slice functions / mask functions are pure (the runner calls them once per aggregate)',
                'feature values are ints; aggregate inputs are ints in nested lists / numpy arrays / one-level dicts for the numeric '
@@ -50,7 +53,9 @@ RULE = ('corpus (test-suite scenarios, finding witnesses), then a systematic swe
         '(0..3 batches, slices first seen late), then random pipelines with 1-3 stacked aggregates, 0-3 slicers of the five kinds '
         '(default, cross, within_values, fan-out slice_fn, slice_mask_fn with filter/replace, one mask for all inputs / one per input, '
         'list / numpy / dict masks), streams of 0-6 batches of 0-4 rows, ~10% malformed (missing keys, misaligned features, duplicate '
-        'names, arity mismatches, unhashable features); non-trivial = at least one slicer and at least two distinct slice keys '
+        'names, arity mismatches, unhashable features); a typed world: the dtype-pair matrix (int / float / bool / str / object / 2-D / dict-leaf '
+        'columns x list | ndarray x row slicer | numpy mask | list mask x int | float | str | bool | None replacement value, every combination '
+        'REQUIRED in every run) and random typed pipelines, observed through typed bag aggregates; non-trivial = at least one slicer and at least two distinct slice keys '
         'reported or an error kind predicted; distinct = distinct canonical case JSON')
 
 
